@@ -49,7 +49,8 @@ def load_known_networks():
         return {}
 
 
-SAFETY_RULES = ('invented', 'duplicate', 'reorder', 'lost', 'capacity', 'nil-from-open', 'close-order')
+SAFETY_RULES = ('invented', 'duplicate', 'reorder', 'lost', 'capacity', 'nil-from-open', 'close-order',
+                'send-after-close')
 
 
 def norm_reason(u):
